@@ -7,7 +7,6 @@
 #define VERIF_CONTRACTS_BASIC_TOKENS_H
 
 static unsigned char g_tb, g_te;     /* ghost indices */
-static struct expansion_map h_map;
 
 static _Bool spec_streq(const char *a, const char *b)
 {
@@ -34,14 +33,21 @@ static _Bool spec_streq(const char *a, const char *b)
 
 bool build_mapping(unsigned dialect, struct expansion_map *m)
 __CPROVER_requires(dialect == DIALECT)
-__CPROVER_requires(m == &h_map)                /* harness-owned object, contents unconstrained */
-__CPROVER_assigns(h_map)
+__CPROVER_requires(__CPROVER_is_fresh(m, sizeof(*m)))
+__CPROVER_assigns(*m)
 __CPROVER_ensures(__CPROVER_return_value)
+#ifndef VERIF_BM_SHALLOW   /* callers that only need the result flag replace the call by the shallow contract:
+                              assuming less is sound, and it avoids dereferencing havocked table cells */
 __CPROVER_ensures(SPEC_BASE_ENTRY_OK(m, g_tb))
 __CPROVER_ensures(SPEC_EXT_ENTRY_OK(m->c6, SPEC_MAP.c6, SPEC_C6V, g_te))
 __CPROVER_ensures(SPEC_EXT_ENTRY_OK(m->c7, SPEC_MAP.c7, SPEC_C7V, g_te))
 __CPROVER_ensures(SPEC_EXT_ENTRY_OK(m->c8, SPEC_MAP.c8, SPEC_C8V, g_te))
+#endif
 ;
+
+/* dfcc verifies a function for ANY value of non-const static data.  `dialects[]` is never written; the
+   VERIF_CONST_DATA hook compiles it as const under BEEBTOOLS_VERIF, so its initialiser is what the proof sees. */
+#define STR_IS_6502(p) ((p)[0] == '6' && (p)[1] == '5' && (p)[2] == '0' && (p)[3] == '2' && (p)[4] == 0)
 
 bool set_dialect(const char *name, enum Dialect *d)
 __CPROVER_requires(__CPROVER_is_fresh(d, sizeof(*d)))
@@ -50,5 +56,7 @@ __CPROVER_assigns(*d)
 /* C08: on success the result is a valid dialect (index into the tables) */
 __CPROVER_ensures(__CPROVER_return_value ==> (*d >= MIN_DIALECT && *d < NUM_DIALECTS))
 __CPROVER_ensures(!__CPROVER_return_value ==> *d == __CPROVER_old(*d))
+/* the default dialect name is always known (C08/C19: the default must really be set) */
+__CPROVER_ensures(STR_IS_6502(name) ==> (__CPROVER_return_value && *d == mos6502_32000))
 ;
 #endif
